@@ -137,6 +137,17 @@ APPEND = {
     ("C03_rmw_atomicity_fixpoint", "rmw_atomicity_fixpoint", "RMW atomicity (fix 189e88b): at the fixpoint, every RMW store whose source is mo-before the new store is itself mo-before the new store"),
     ("C03_rmw_atomicity_sufficient_fuel", "rmw_atomicity_sufficient_fuel", "the fixpoint is reached with fuel = ring size"),
     ("C03_atomic_store_from_rmw_atomic", "atomic_store_from_rmw_atomic", "the postcondition of the model's own store: the new store is mo-after the thread's clock, after every store it has seen, and closed under RMW atomicity"),
+ ]), ("LV.AtomicFacts LV.AtomicCoherence LV.AtomicCoRR", "COHERENCE OVER SEQUENCES of operations by several threads on one atomic (AtomicCoRR.v): a machine whose steps are literally the model's atomic_load / atomic_store / atomic_rmw (after fix c0421c4), plus arbitrary extra happens-before edges between threads", [
+    ("C03_mrun_inv2", "mrun_inv2", "the invariant (clocks bounded by their owners, every live store keyed by its storing thread's stamp, the key order is exactly vv_lt, no two live stores ordered both ways, first-seen stamps bounded) is preserved by every run"),
+    ("C03_mlts_never_none", "mlts_never_none", "loom's `assert_ne!(mo_i, mo_j)` never fires: no two live stores ever have equal modification-order clocks"),
+    ("C03_run_stable", "run_stable", "THE KEY LEMMA: an edge `a <mo b` between live stores is never lost, whatever any thread does afterwards"),
+    ("C03_CoRR_CoWR", "CoRR_CoWR", "CoRR / CoWR in happens-before form: once a thread knows a store j (its own store, a store it read, or through any chain of synchronisation), it can never again read a store that was mo-before j"),
+    ("C03_CoRR_same_thread", "CoRR_same_thread", "read-read coherence for one thread with arbitrary steps of arbitrary threads in between, no side condition"),
+    ("C03_CoWR_same_thread", "CoWR_same_thread", "write-read coherence likewise"),
+    ("C03_CoRW_same_thread", "CoRW_same_thread", "read-write coherence: a later store of the thread is mo-after what it read"),
+    ("C03_CoWW_same_thread", "CoWW_same_thread", "write-write coherence"),
+    ("C03_coherence_counterexample_before_fix", "coherence_counterexample_before_fix", "computed: with the rule before the fix a thread reads its own older store after its newer one (the defect repaired by c0421c4)"),
+    ("C03_rmw_gap_example", "rmw_gap_example", "computed: the listed finding D19 in the model: loads can still order a store between an RMW's source and the RMW's own store"),
  ])],
  "C02": [("LV.AtomicFacts LV.AtomicCoherence", "Nothing allowed is pruned without a reason: the candidate set is never empty and contains every mo-maximal store (AtomicCoherence.v)", [
     ("C02_mo_maximal_is_candidate", "mo_maximal_is_candidate", "a live store with no mo-later live store is always a candidate"),
@@ -192,7 +203,8 @@ APPEND = {
     ("C10_iteration_done_iff", "iteration_done_iff", "an iteration finishes normally iff nothing declared leaks (and no block_on waker clone is left registered)"),
     ("C10_true_leak_is_reported", "true_leak_is_reported", "every true leak is reported (at that entry or an earlier leaking one)"),
     ("C10_leak_reported_is_true", "leak_reported_is_true", "every reported leak is true and is the first one in object order"),
-    ("C10_send_after_drop_reported", "send_after_drop_reported", "witness (computed) of the behaviour repaired by the fix commit for mpsc: see known_findings.json"),
+    ("C10_chan_leak_queue", "chan_leak_queue", "a channel is reported iff messages are still queued, whether or not the receiver is alive"),
+    ("C10_send_after_drop_not_reported", "send_after_drop_not_reported", "witness (computed): after fix 4a05908 a message handed back by send() to a dropped receiver is not reported as leaked"),
  ])],
  "C05": [("LV.ExecFacts LV.SyncMono LV.DeadlockFacts", "Run-level statements (DeadlockFacts.v)", [
     ("C05_deadlock_only_from_schedule", "exec_micro_deadlock_only_from_schedule", "the deadlock panic is raised by Execution::schedule and nowhere else"),
